@@ -18,6 +18,8 @@ def showKey (k : Key) : String := s!"{k.1}.{k.2.1}.{k.2.2}"
 structure DSt where
   cfg : Option C44.Cfg := none
   st : C44.St := { cbLive := false }
+  /-- output of the prioritized key provider installed by `setprio`: a pass depends only on the streams -/
+  prioKeys : Option (List C04.Cid) := none
 
 def parseNats (t : String) : Option (List Nat) :=
   if t == "-" then some [] else (t.splitOn ",").mapM String.toNat?
@@ -44,6 +46,16 @@ def step (s : DSt) (ln : String) : DSt × String :=
       ({ cfg := some { al := al, maxBatch := mb, thr := thr, many := isMany, hasReady := many == "2" || many == "3" },
          st := { cbLive := cb != "-" } }, "ok")
     | _, _, _ => (s, "bad-op")
+  | ["reprovk", fail, stop] =>
+    match s.cfg, parseNats fail, parseNats stop, s.prioKeys with
+    | some cfg, some fail, some stop, some ks =>
+      match reprovide cfg s.st ks (fun i => !fail.contains i) (fun i => !stop.contains i) with
+      | some (st, evs) =>
+        let calls := evs.filterMap fun | .prov ks => some (",".intercalate ((sortKeys ks).map showKey)) | _ => none
+        let cbs := evs.filterMap fun | .cb c n => some s!"{c}:{n}" | _ => none
+        ({ s with st := st }, s!"ret=nil calls=[{";".intercalate calls}] cbs=[{",".intercalate cbs}]")
+      | none => (s, "ret=hang calls=[] cbs=[]")
+    | _, _, _, _ => (s, "bad-op")
   | "reprov" :: fail :: stop :: ks =>
     match s.cfg, parseNats fail, parseNats stop, ks.mapM Proto.parseCid with
     | some cfg, some fail, some stop, some ks =>
@@ -86,8 +98,18 @@ def step (s : DSt) (ln : String) : DSt × String :=
     match (splitStreams ts [] false).mapM (fun st => match st with
         | none => some none
         | some toks => (toks.mapM Proto.parseCid).map some) with
-    | some streams => (s, s!"out=[{",".intercalate ((prioritized streams).map Proto.showCid)}]")
+    | some streams =>
+      let o := s!"[{",".intercalate ((prioritized streams).map Proto.showCid)}]"
+      (s, s!"out={o} again={o}")   -- every invocation of the KeyChanFunc behaves like the first
     | none => (s, "bad-op")
+  | "setprio" :: ts =>
+    match s.cfg, (splitStreams ts [] false).mapM (fun st => match st with
+        | none => some none
+        | some toks => (toks.mapM Proto.parseCid).map some) with
+    | some _, some streams =>
+      let o := s!"[{",".intercalate ((prioritized streams).map Proto.showCid)}]"
+      ({ s with prioKeys := some (prioritized streams) }, s!"out={o} again={o}")
+    | _, _ => (s, "bad-op")
   | _ => (s, "bad-op")
 
 partial def loop (h : IO.FS.Stream) (out : IO.FS.Stream) (s : DSt) : IO Unit := do
